@@ -68,14 +68,21 @@ package block
 //@   ensures [all-or-error] err == nil ==> len(remaining) == 0 || ctxDone(ctx) || (swh && swh.res0.Code == coreda.StatusContextCanceled)
 
 // The two callbacks submitHeadersToDA hands to submitToDA.
-// Assumed (trusted) for now: the bytes are a function of the item (proto.Marshal . ToProto);
-// that they decode back to the item is the subject of C12.
+// Assumed: the bytes are a function of the item (proto.Marshal . ToProto); that they decode back to the
+// item is the subject of C12. Proved: every call returns a byte string of its own - submitToDA keeps the
+// blobs of a whole batch side by side, so a buffer shared between calls would make them all the last one.
 //@ func (m *Manager) submitHeadersToDA$1(header) (bz, err)
-//@   trusted
-//@   ensures [marshal] err == nil ==> val(bz) == coreda_Marshal(header)
+//@   property C06 C07 C08
+//@   requires [item] header != nil
+//@   fresh bz
+//@   assumes [marshal] err == nil ==> val(bz) == coreda_Marshal(header)
 
 //@ func (m *Manager) submitHeadersToDA$2(submitted, res, gasPrice)
 //@   property C06 C07 C08
+//@   observe wake := call sendNonBlockingSignalToDAIncluderCh
+// C07: what was just marked as included can only become final if the includer looks again: it is woken
+// every time something was accepted, not only when a whole submission round succeeded
+//@   ensures [wakes-includer] wake.count >= 1
 //@   modifies m.headerCache.daInc, m.headerCache.daIncHas, m.pendingHeaders.base.lastHeight,
 //@            durable m.pendingHeaders.base.store.meta[m.pendingHeaders.base.metaKey], durable m.pendingHeaders.base.store.metaHas[m.pendingHeaders.base.metaKey]
 //@   requires [success-only] res != nil && res.Code == coreda.StatusSuccess
@@ -90,11 +97,17 @@ package block
 //@   ensures [watermark-empty] len(submitted) == 0 ==> m.pendingHeaders.base.lastHeight == old(m.pendingHeaders.base.lastHeight)
 
 //@ func (m *Manager) submitDataToDA$1(signedData) (bz, err)
-//@   trusted
-//@   ensures [marshal] err == nil ==> val(bz) == coreda_Marshal(signedData)
+//@   property C06 C07 C08
+//@   requires [item] signedData != nil
+//@   fresh bz
+//@   assumes [marshal] err == nil ==> val(bz) == coreda_Marshal(signedData)
 
 //@ func (m *Manager) submitDataToDA$2(submitted, res, gasPrice)
 //@   property C06 C07 C08
+//@   observe wake := call sendNonBlockingSignalToDAIncluderCh
+// C07: what was just marked as included can only become final if the includer looks again: it is woken
+// every time something was accepted, not only when a whole submission round succeeded
+//@   ensures [wakes-includer] wake.count >= 1
 //@   modifies m.dataCache.daInc, m.dataCache.daIncHas, m.pendingData.base.lastHeight,
 //@            durable m.pendingData.base.store.meta[m.pendingData.base.metaKey], durable m.pendingData.base.store.metaHas[m.pendingData.base.metaKey]
 //@   requires [success-only] res != nil && res.Code == coreda.StatusSuccess
@@ -184,13 +197,13 @@ package block
 //@                       && val(header.AppHash) == val(ls.AppHash)
 
 //@ func (m *Manager) execValidate(lastState, header, data) (err)
-//@   property C01 C02 C03
+//@   property C01 C02 C03 C04 C05
 //@   requires [non-nil] header != nil && data != nil
 //@   ensures [valid-only-if] err == nil ==> ValidAgainst(lastState, header, data)
 //@   ensures [accepts-valid] ValidAgainst(lastState, header, data) && BasicOK(header) ==> err == nil
 
 //@ func (m *Manager) Validate(ctx, header, data) (err)
-//@   property C01 C02 C03
+//@   property C01 C02 C03 C04 C05
 //@   requires [non-nil] header != nil && data != nil
 //@   ensures [valid-only-if] err == nil ==> ValidAgainst(m.lastState, header, data)
 //@   ensures [accepts-valid] ValidAgainst(m.lastState, header, data) && BasicOK(header) ==> err == nil
@@ -397,10 +410,11 @@ package block
 //@ pred SyncInv(m) := InvState(m) && m.store.height < 18446744073709551615
 
 //@ func (m *Manager) trySyncNextBlock(ctx, daHeight) (err)
-//@   property C02:kind:inv-establish,kind:inv-preserve,kind:pre,kind:frame,monotone,progress,inv,inv-on-success,scan-start-kept
+//@   property C02:kind:inv-establish,kind:inv-preserve,kind:pre,kind:frame,monotone,progress,inv,inv-on-success,scan-start-kept,gives-up-only-for-cause
 //@   property C03:no-halt,validated
 //@   property C07:scan-start-kept
-//@   property C05:kind:crash,kind:frame,inv,state-lbh,state-persisted,monotone
+//@   property C09:scan-start-kept
+//@   property C05:kind:crash,kind:frame,inv,state-lbh,state-persisted,monotone,scan-start-kept
 //@   requires [wiring] m.metrics != nil && m.headerCache != nil && m.dataCache != nil && m.store != nil
 //@   requires [inv] SyncInv(m)
 //@   observe val := call Validate
@@ -427,6 +441,9 @@ package block
 //@   ensures [inv-on-success] err == nil ==> SyncInv(m)
 //@   observe ab := call applyBlock
 //@   ensures [no-halt] err != nil ==> ctxDone(ctx) || m.store.faulty || (ab && ab.res1 != nil)
+// C02: the step gives up only for a stated cause - cancellation, a storage fault, a failed execution, or a block
+// that the one validation (the same the proposer applies) rejects; no further check of its own stops the genuine chain
+//@   ensures [gives-up-only-for-cause] err != nil ==> ctxDone(ctx) || m.store.faulty || (ab && ab.res1 != nil) || (val && val.res0 != nil)
 //@   crash_inv [height-not-ahead] m.store.hasState && m.store.height <= m.store.stateAt.lastBlockHeight
 //@   crash_inv [state-at-most-one-ahead] m.store.stateAt.lastBlockHeight <= currentHeight + 1 && m.store.height >= currentHeight
 //@   crash_inv [state-has-block] m.store.stateAt.lastBlockHeight > m.store.height ==> m.store.has[m.store.stateAt.lastBlockHeight]
